@@ -11,7 +11,9 @@ def schemas():
         out.append({"name": name, "model": doc})
     out.append({"name": "explicit", "model": {"defs": [
         SG.schema_def([("query", "Q"), ("mutation", "M")]),
-        SG.tdef("object", "Q", fields=[SG.fdef("a", G.named("Int")), SG.fdef("m", G.named("Mutation")), SG.fdef("u", G.named("U"))]),
+        SG.tdef("object", "Q", fields=[SG.fdef("a", G.named("Int")), SG.fdef("m", G.named("Mutation")), SG.fdef("u", G.named("U")),
+                                             # an argument of type list-of-non-null WITH a default (the default does not reach into a supplied list)
+                                             SG.fdef("wd", G.named("Int"), [SG.ival("ids", G.lst(G.nn(G.named("Int"))), {"k": "list", "vs": []})])]),
         SG.tdef("object", "M", fields=[SG.fdef("set", G.named("Int"), [SG.ival("v", G.named("In"))])]),
         SG.tdef("object", "Mutation", fields=[SG.fdef("notRoot", G.named("Int"))]),
         SG.tdef("object", "A", fields=[SG.fdef("x", G.named("Int"))]), SG.tdef("object", "B", fields=[SG.fdef("y", G.named("Int"))]),
